@@ -116,10 +116,21 @@ theorem opt_lit_v (s : List Char) : ∃ x, Winnow.opt (Winnow.literal ['v']) s =
       · rename_i t' heq; cases heq; exact absurd rfl h
       · rfl
 
+/-- `preceded((a, b), c)` is `a`, `b`, `c` in sequence (so that the combinator spelling of a prefix and the three
+statements `a(input)?; b(input)?; c(input)?` are the same term for the proofs below) -/
+theorem preceded_seq2 {α β γ : Type} (a : Parser α) (b : Parser β) (c : Parser γ) :
+    Winnow.preceded (Winnow.seq2 a b) c = (a >>= fun _ => b >>= fun _ => c) := by
+  funext s
+  simp only [Winnow.preceded, Winnow.seq2, bind_def, pure_def]
+  cases a s with
+  | err e => rfl
+  | ok x r => simp only; cases b r <;> rfl
+
 theorem partial_version_eq (s : List Char) : toOpt (Semver.Gen.partial_version s) = partialVersion s := by
   unfold Semver.Gen.partial_version partialVersion partialCore
   obtain ⟨x, hx⟩ := opt_lit_v s
-  simp only [bind_def, hx, space0_eq]
+  -- statement style and combinator style (`preceded((opt("v"), space0), component)`) unfold to the same binds
+  simp only [preceded_seq2, bind_def, hx, space0_eq]
   have hc := component_eq (dropBlanks (stripV s))
   cases hg : Semver.Gen.component (dropBlanks (stripV s)) with
   | err e => rw [hg] at hc; simp only [toOpt_err] at hc; simp [← hc]
@@ -381,8 +392,9 @@ theorem hyphen_rest (s : List Char) :
 
 theorem hyphen_parser_eq (s : List Char) : toOpt (Semver.Gen.hyphen_parser s) = hyphen s := by
   unfold Semver.Gen.hyphen_parser hyphen
-  rw [bind_def, opt_partial]
-  simp only
+  -- `separated_pair(opt(partial_version), (space1, "-", space1), partial_version)` unfolds to the five statements
+  simp only [Winnow.separatedPair, Winnow.seq3, Winnow.seq2, Winnow.preceded, Winnow.terminated]
+  simp only [bind_def, pure_def, opt_partial]
   have hr := hyphen_rest (optPartial s).2
   simp only [bind_def] at hr ⊢
   cases hg1 : Winnow.space1 (optPartial s).2 with
@@ -811,10 +823,11 @@ theorem Version_parse (s : List Char) : Version.rs_parse s = Version.parse s := 
     congr 2 <;> (cases s.getLast? <;> rfl)
   · simp only [h, decide_false, Bool.false_eq_true, ↓reduceIte, Winnow.run, version_eq]
     cases versionP s with
-    | ok v r => rfl
+    | ok v r => first | rfl | simp [Rust.map_err, bind, Except.bind, pure, Except.pure]
     | err e =>
       simp only [bind, Except.bind, pure, Except.pure, throw, throwThe, MonadExceptOf.throw, Rust.ptr_diff, RPtrDiff.ptr_diff, PErr.input,
-        PErr.finalKind, PErr.context]
+        PErr.finalKind, PErr.context, Rust.map_err, Rust.unwrap_or, Rust.or_else, Rust.opt_or, Rust.map, RMap.map, Rust.map_or,
+        Rust.map_or_else, Rust.and_then]
       congr 2
       cases e.kind <;> cases e.ctx <;> rfl
 
@@ -823,13 +836,14 @@ theorem Range_parse (s : List Char) : Range.rs_parse s = Range.parse s := by
   rw [Range_parse_eq]
   simp only [Winnow.run, Rust.into, RInto.into, Rust.span_offset, id]
   cases hg : Semver.Gen.range_set s with
-  | ok r rest => rfl
+  | ok r rest => first | rfl | simp [Rust.map_err, bind, Except.bind, pure, Except.pure]
   | err e =>
     have hr : e.rest = s := by
       rw [range_set_eq] at hg
       split at hg <;> cases hg; rfl
     simp only [bind, Except.bind, pure, Except.pure, throw, throwThe, MonadExceptOf.throw, Rust.ptr_diff, RPtrDiff.ptr_diff, PErr.input,
-      PErr.finalKind, PErr.context, hr]
+      PErr.finalKind, PErr.context, hr, Rust.map_err, Rust.unwrap_or, Rust.or_else, Rust.opt_or, Rust.map, RMap.map, Rust.map_or,
+      Rust.map_or_else, Rust.and_then]
     congr 2
     cases e.kind <;> cases e.ctx <;> rfl
 
